@@ -177,6 +177,10 @@ def probe_instants(data, tier, rng, max_trans=40):
         years += [ly + 401 + rng.randint(0, 4000) for _ in range(4)]
         if tier != "quick":
             years += list(range(ly, ly + 404))
+        elif any(d[0] == "M" and d[2] == 5 for d in (ds, de)):
+            # "last weekday of the month" uses the month-END offsets (for December the 13th table entry), and whether it
+            # is off by a week depends on the weekday of the month's last day: one full 28-year leap/weekday cycle
+            years += list(range(ly, ly + 29))
         for Y in sorted(set(years)):
             for inst in (rule_instant(ds, ts, std, Y), rule_instant(de, te, dst, Y)):
                 for d in (-1, 0, 1):
@@ -266,6 +270,9 @@ def synthetic_zones(rng, tier):
        types=[(-1500, 0, 0), (3600, 0, 4), (0, 1, 8)], ab=b"LMT\0IST\0GMT\0")
     mk("syn_east", b"NZST-12NZDT,M9.5.0,M4.1.0/3", std=43200, dst=46800,
        types=[(41944, 0, 0), (43200, 0, 4), (46800, 1, 9)], ab=b"LMT\0NZST\0NZDT\0")
+    # rules in the LAST week of December / of February (month-end table entries 13 and 3, leap and common years)
+    mk("syn_dec_last", b"STD5DST,M6.1.0,M12.5.0")
+    mk("syn_dec_last_s", b"STD5DST,M12.5.3/1,M2.5.6")
     mk("syn_notrans_rule", b"STD5DST,M3.2.0,M11.1.0", times=[], idx=[], types=[(-18000, 0, 0), (-14400, 1, 4)], ab=b"STD\0DST\0")
     mk("syn_notrans_std", b"STD5", times=[], idx=[], types=[(-18000, 0, 0)], ab=b"STD\0")
     mk("syn_bigbang", b"STD5DST,M3.2.0,M11.1.0", times=[BIG_BANG, t0, 100000000, 110000000], idx=[0, 1, 2, 1])
